@@ -237,11 +237,29 @@ def drivers():
     return D
 
 
-def run_tool(chk, name, fn, paths, plan, serial=False, flavour="sched", workers=None, default="rotate", log=None):
+class cpus(object):
+    """The number of processors the code is told it has (multiprocessing.cpu_count / os.cpu_count)."""
+
+    def __init__(self, n):
+        self.n = n
+
+    def __enter__(self):
+        import multiprocessing
+        self.saved = (multiprocessing.cpu_count, os.cpu_count)
+        if self.n is not None:
+            multiprocessing.cpu_count = lambda: self.n
+            os.cpu_count = lambda: self.n
+
+    def __exit__(self, *a):
+        import multiprocessing
+        multiprocessing.cpu_count, os.cpu_count = self.saved
+
+
+def run_tool(chk, name, fn, paths, plan, serial=False, flavour="sched", workers=None, default="rotate", log=None, ncpu=None):
     out = chk.tmp()
     sched = shims.Scheduler(plan=plan, default=default, workers=workers, rng=random.Random(1))
     try:
-        with shims.pool_shim(sched, flavour), shims.poison(SENTINEL), core.quiet():
+        with shims.pool_shim(sched, flavour), shims.poison(SENTINEL), core.quiet(), cpus(ncpu):
             ret = fn(paths, out, serial)
         res = {"ret": ret, "files": tree(out) if os.path.exists(out) else
                (tree(out + ".npy") if os.path.exists(out + ".npy") else (tree(out + ".npz") if os.path.exists(out + ".npz") else {}))}
@@ -372,10 +390,17 @@ def run(chk, replay):
                 chk.rng.shuffle(perms)
                 for i, wk in enumerate(ws):
                     variants.append(("gated", wk, list(perms[i % len(perms)]), False))
+            # the number of processors the code believes it has: work split by it must not change any result
+            if n >= 3:
+                for nc in ((1, 2, 3, 64) if chk.tier == "quick" else (1, 2, 3, 4, 5, 7, 64)):
+                    variants.append(("cpus", nc, list(range(1, n + 1)), False))
             for flavour, wk, perm, serial in variants:
                 plan = {c: perm for c in range(1, 40)}
-                res = run_tool(chk, name, fn, paths, plan, serial=serial, flavour=flavour, workers=wk,
-                               log=log if flavour == "sched" else None)
+                if flavour == "cpus":
+                    res = run_tool(chk, name, fn, paths, {}, default="fifo", ncpu=wk)
+                else:
+                    res = run_tool(chk, name, fn, paths, plan, serial=serial, flavour=flavour, workers=wk,
+                                   log=log if flavour == "sched" else None)
                 sig = util.sig_str(name, n, perm, "serial" if serial else "%s/W=%s" % (flavour, wk))
                 nontrivial = perm != list(range(1, n + 1)) or serial or flavour == "gated"
                 chk.executed(sig, nontrivial, sample={"tool": name, "n": n, "finish_order": perm, "flavour": flavour, "W": wk,
@@ -384,7 +409,7 @@ def run(chk, replay):
                 if res != ref:
                     d = core.first_diff(json.loads(core.jdump(ref)), json.loads(core.jdump(res)))
                     chk.violation(sig, "%s with %d tasks: completion order %r (%s) gives another result than the submission-order "
-                                  "run: %s" % (name, n, perm, "serial" if serial else flavour, d),
+                                  "run: %s" % (name, n, perm, "serial" if serial else ("told it has %d processors" % wk if flavour == "cpus" else flavour), d),
                                   {"tool": name, "n": n, "perm": perm, "serial": serial})
         for k, dg in before.items():
             if alpha.tree_digest(paths[k]) != dg:
